@@ -112,28 +112,25 @@ for fam, op in (("amax", "maximum"), ("amin", "minimum")):
         OPS.append(dict(name="wr_%s2_i4_a%s" % (fam, a), grp="wrap_a", kind="reduce2", fam=fam, op=op, T="i4", R="i4", axis=a, dtype="N", init="N", keep="F",
                         call="view::%s(a, axis)" % fam, sf=functor(op, "N"), hdr=hdr, npop=op, data="labels", post=None, multi_axis=True))
 # ---- mean(a, axis, dtype, keepdims)
-for T, dts in (("i4", ("N", "f8", "f4")), ("f8", ("N", "f8")), ("f4", ("N",))):
-    for a, k in itertools.product("ILN", "TFR"):
-        for dt in dts:
-            if dt != "N" and (a, k) not in (("I", "F"), ("L", "T"), ("N", "R")):
-                continue
-            R = dt if dt != "N" else ("f4" if T[0] == "i" else T)
-            name = "wr_mean_%s_a%s_d%s_k%s" % (T, a, dt, k)
-            OPS.append(dict(name=name, grp="wrap_b", kind="reduce", fam="mean", op="add", T=T, R=R, axis=a, dtype=dt, init="N", keep=k,
-                            call="view::mean(a, axis, %s, keepdims)" % DTYPE[dt], sf=functor("add", R), hdr="nmtools/array/view/mean.hpp", npop="mean",
-                            data="labels", post="c08::post_mean", multi_axis=True))
+MEAN_CFG = {("i4", "N"): list(itertools.product("ILN", "TFR")), ("i4", "f8"): [("I", "F"), ("L", "T"), ("N", "R")], ("i4", "f4"): [("L", "F"), ("N", "T")],
+            ("f8", "N"): [("I", "F"), ("L", "T"), ("N", "R"), ("I", "R"), ("N", "F")], ("f8", "f8"): [("L", "F")], ("f4", "N"): [("I", "T"), ("L", "F"), ("N", "F")]}
+for (T, dt), cfgs in MEAN_CFG.items():
+    for a, k in cfgs:
+        R = dt if dt != "N" else ("f4" if T[0] == "i" else T)
+        name = "wr_mean_%s_a%s_d%s_k%s" % (T, a, dt, k)
+        OPS.append(dict(name=name, grp="wrap_b", kind="reduce", fam="mean", op="add", T=T, R=R, axis=a, dtype=dt, init="N", keep=k,
+                        call="view::mean(a, axis, %s, keepdims)" % DTYPE[dt], sf=functor("add", R), hdr="nmtools/array/view/mean.hpp", npop="mean",
+                        data="labels", post="c08::post_mean", multi_axis=True))
 # ---- var / stddev (a, axis, dtype, ddof, keepdims)
+VAR_CFG = {"var": {("i4", "N"): [("I", "F"), ("I", "T"), ("L", "F"), ("L", "R"), ("N", "F"), ("N", "T")], ("i4", "f8"): [("I", "F"), ("L", "T")],
+                   ("f8", "N"): [("I", "F"), ("N", "F")], ("f4", "N"): [("L", "T")]},
+           "stddev": {("i4", "N"): [("I", "F"), ("L", "T"), ("N", "F"), ("I", "R")], ("i4", "f8"): [("L", "T")], ("f8", "N"): [("I", "F")], ("f4", "N"): [("L", "F")]}}
 for fam, sq in (("var", "false"), ("stddev", "true")):
-    for T, dts in (("i4", ("N", "f8")), ("f8", ("N",)), ("f4", ("N",))):
-        for a, k in itertools.product("ILN", "TFR"):
-            for dt in dts:
-                if (T != "i4" or dt != "N") and (a, k) not in (("I", "F"), ("L", "T"), ("N", "F")):
-                    continue
-                if fam == "stddev" and (a, k) not in (("I", "F"), ("L", "T"), ("N", "F"), ("I", "R")):
-                    continue
-                name = "wr_%s_%s_a%s_d%s_k%s" % (fam, T, a, dt, k)
-                OPS.append(dict(name=name, grp="wrap_b", kind="var", fam=fam, T=T, R=None, axis=a, dtype=dt, keep=k, sqrt=sq,
-                                call="view::%s(a, axis, %s, ddof, keepdims)" % (fam, DTYPE[dt]), hdr="nmtools/array/view/%s.hpp" % fam, data="labels"))
+    for (T, dt), cfgs in VAR_CFG[fam].items():
+        for a, k in cfgs:
+            name = "wr_%s_%s_a%s_d%s_k%s" % (fam, T, a, dt, k)
+            OPS.append(dict(name=name, grp="wrap_v", kind="var", fam=fam, T=T, R=None, axis=a, dtype=dt, keep=k, sqrt=sq,
+                            call="view::%s(a, axis, %s, ddof, keepdims)" % (fam, DTYPE[dt]), hdr="nmtools/array/view/%s.hpp" % fam, data="labels"))
 # ---- vector_norm(a, axis, keepdims, ord)
 for T in ("f8", "f4", "i4"):
     for a, k in itertools.product("ILN", "TFR"):
@@ -149,7 +146,7 @@ for T, dt in (("i4", "N"), ("f8", "N"), ("i4", "f8")):
 OPS.append(dict(name="wr_trace0_i4", grp="wrap_c", kind="trace0", fam="trace", op="add", T="i4", R="i4", dtype="N",
                 call="view::trace(a)", sf=functor("add", "N"), hdr="nmtools/array/view/trace.hpp", npop="add", data="labels"))
 
-GROUPS = ["add", "ops_i", "ops_f", "generic", "accum", "wrap_a", "wrap_b", "wrap_c"]
+GROUPS = ["add", "ops_i", "ops_f", "generic", "accum", "wrap_a", "wrap_b", "wrap_v", "wrap_c"]
 HARNESS = ["c08_" + g for g in GROUPS]
 BY_NAME = {o["name"]: o for o in OPS}
 assert len(BY_NAME) == len(OPS), "duplicate op names"
